@@ -746,12 +746,12 @@ def run_concrete(harness, cfg, model, caps=None, floats=False):
   """Run the harness natively.  -> dict(status, clause, detail, exc)"""
   ctx = ConcreteCtx(model, caps, floats)
   try:
-    with _Watchdog((caps or {}).get("path_s", 20)):
+    with _Watchdog((caps or {}).get("path_s", 90)):
       harness(ctx, cfg)
   except PathTimeout:
     return {"status": "failed", "clause": "termination", "ctx": ctx,
             "detail": "the real code did not come back within %s s on these inputs (endless loop?)"
-                      % (caps or {}).get("path_s", 20)}
+                      % (caps or {}).get("path_s", 90)}
   except ClauseFailed as e:
     return {"status": "failed", "clause": e.clause, "detail": str(e.detail)[:500], "ctx": ctx}
   except PathAbort:
@@ -821,7 +821,7 @@ def explore(harness, cfg, caps, hname="?"):
     uncaught = None
     aborted = False
     try:
-      with _Watchdog(caps.get("path_s", 20)):
+      with _Watchdog(caps.get("path_s", 90)):
         harness(ctx, cfg)
     except PathAbort:
       aborted = True
@@ -829,7 +829,7 @@ def explore(harness, cfg, caps, hname="?"):
       Ctx.cur = ctx
       try: md = ctx.model_dict()
       finally: Ctx.cur = None
-      cand = CandidateViolation("termination", "path did not finish within %s s" % caps.get("path_s", 20), md,
+      cand = CandidateViolation("termination", "path did not finish within %s s" % caps.get("path_s", 90), md,
                                 "watchdog")
     except CandidateViolation as cv:
       cand = cv
